@@ -82,12 +82,13 @@ let run_case id scanner text build ops : string =
   Buffer.add_string buf ("(" ^ id);
   (try
      let lx = c_new scanner text in
+     let okb r = match r with Ok l -> l | _ -> Buffer.add_string buf " (init PANIC)"; raise (Stop "init") in
      let lx = List.fold_left (fun lx b ->
        match b with
        | Sexp.L [Sexp.A "metrics"; l; t] ->
-         c_with_metrics lx { le = le_of_string (Sexp.atom l); tabw = nat_of_int (Sexp.int t) }
-       | Sexp.L [Sexp.A "le"; l] -> c_with_le lx (le_of_string (Sexp.atom l))
-       | Sexp.L [Sexp.A "tab"; t] -> c_with_tab lx (nat_of_int (Sexp.int t))
+         okb (c_with_metrics lx { le = le_of_string (Sexp.atom l); tabw = nat_of_int (Sexp.int t) })
+       | Sexp.L [Sexp.A "le"; l] -> okb (c_with_le lx (le_of_string (Sexp.atom l)))
+       | Sexp.L [Sexp.A "tab"; t] -> okb (c_with_tab lx (nat_of_int (Sexp.int t)))
        | Sexp.L [Sexp.A "filter"; f] ->
          (match c_with_filter lx (fspec_of_sexp f) with
           | Ok lx' -> lx'
